@@ -196,6 +196,9 @@ def whole_cart(seed, fmt):
     from pico8.game.formatter.p8png import P8PNGFormatter, EMPTY_LABEL_FNAME
     ch = Choices(seed)
     mem, modes = cartgen.memory_from_choices(ch)
+    if seed[-1] % 3 == 0:
+        mem = cartgen.with_untouched_sfx(mem, seed[-2])     # untouched-looking sfx rows (speed 16, no notes)
+        modes = modes + ('untouched_sfx',)
     version = 1 + ch.below(255)
     code = compressible_code(ch)
     has_label = ch.chance(128)
@@ -327,6 +330,9 @@ def part_regions(ctx):
     def body(v):
         name, seed = v
         mode, data = cartgen.region_bytes(Choices(seed), sizes[name])
+        if name == 'sfx' and seed[-1] % 3 == 0:
+            data = cartgen.with_untouched_sfx(bytes(0x3200) + data, seed[-2])[0x3200:]
+            mode += '+untouched_sfx'
         check_region(name, data)
         ctx.stats.case(name.encode() + seed, cartgen.distinct_values(data) >= 16,
                        {'region': name, 'mode': mode, 'head': show(data[:24])}, ['region_' + name])
